@@ -242,7 +242,8 @@ CLAIMS = {
              "evaluated abstractly, equals the operands writeMessage() streams (text + terminator); "
              "check -> write -> account and close -> roll -> open orderings by dominance; after every rollFiles() call "
              "openCheck() sees the new file before the function returns; roll loops shift "
-             "generation n-1 to n with n descending. Breaking any of these breaks the property for some history; "
+             "generation n-1 to n with n descending; files::Handler<P, L>::message() holds a named lock guard on its lock "
+             "member around writeMessage(). Breaking any of these breaks the property for some history; "
              "histories, restarts and crash points themselves are not decided.",
         note="trusts clang AST/CFG and constant folding; libstdc++ openmode bit values; std::endl writes one byte",
         also=("engine B (boolshape.py)",),
@@ -254,7 +255,8 @@ CLAIMS = {
              "getter and default date/time format, single funnel into append() with the field definition, width and "
              "alignment applied in one place, pending options consumed in addField() on every path, separator guard, "
              "attribute lookup order by dominance and guard (message attributes through the parent chain of the attribute "
-             "object, own value before the parent's, before global ones), newest-first search, add/remove pairing of scoped "
+             "object, own value before the parent's, before global ones), newest-first search, Logging's global add/remove "
+             "forward all parameters to the container, add/remove pairing of scoped "
              "attributes, use of the strftime() result.",
         note="trusts clang AST/CFG; iostream manipulators and strftime behave as documented; the field-kind table is "
              "frozen in the checker (a new field kind fails the check until the table is extended)",
@@ -267,6 +269,7 @@ CLAIMS = {
              "shape rule 'every line break is followed by the indentation', guard of the first-line indentation, "
              "tokenizer separators. Decides the no-loss/no-duplication/order and indentation clauses for all texts; "
              "the usage printer lays its key column out for exactly the arguments it prints (doPrint() arguments, shared with C18-R5); "
+             "words are never merged (second ghost: the last output on the line was a word; every word is streamed with it at 0); "
              "the width clause is decided by Engine C with a ghost line-length counter and the inductive loop invariant ghost <= currLength (a line exceeds the width only if it holds the indentation and a single word); blank placement is not decided.",
         note="trusts clang AST/CFG and boost::tokenizer order",
         technique="static analysis: path counting on the loop-body CFG, use analysis, stream-chain shape rules"),
@@ -280,7 +283,8 @@ CLAIMS = {
              "family (a sub-group shares the UsageParams object of its main handler; replacing a handler's settings "
              "object must re-target its description printer - this last rule reports an open, recorded finding on "
              "Handler::setUsageParams, see known_findings.json); every call of the visibility predicate passes the current "
-             "settings in their places (column-width pass == printing pass); the description text goes through the "
+             "settings in their places (column-width pass == printing pass); default value, check, constraint and hidden "
+             "mark each depend on their own property only; the description text goes through the "
              "word loop of TextBlock, whose no-word-lost rule (C17-R1) is run here as well. Layout is not decided.",
         note="trusts clang AST/CFG; TypedArgBase property getters report the configured properties",
         also=("engine A (cfg.py)",),
@@ -349,6 +353,8 @@ CLAIMS = {
              "read side - fetched == consumed + window and buf[ start + k] == stream[ consumed + k] for every k of "
              "the window, assumed at entry, proved at every exit and inductively around the refill loop, and at the "
              "exit of get() exactly len bytes were delivered with data[ i] == stream[ consumed + i]; write side - "
+             "(also at the exceptional exits of append()/flush() when the sink refuses the bytes: nothing buffered is "
+             "lost) "
              "sunk == appended - buffered, buf[ k] == appended[ appended - buffered + k], and every writeData( p, n) "
              "hands over exactly appended[ sunk .. sunk + n). By induction over the calls this is in-order, "
              "exactly-once delivery for every sequence of requests and every chunking. Termination when the source "
